@@ -16,6 +16,7 @@ from dataclasses import dataclass, field
 from core.guards import FALSE, atom, atoms_of, evaluate, f_and, f_not, f_or, implies, to_formula
 from core.loader import AnalysisError, norm, parent
 
+from .c17_inductive import has_recursive_call, reads_label, rule_inductive
 from .c17_model import Model, const_str, parse_atom
 from .c17_rules import remaining_helper_calls
 from .c17_view import _walk_own
@@ -915,6 +916,9 @@ def domain_order(M: Model, e: ast.expr, n: str, depth: int = 0) -> tuple[str | N
             # n, parent ... root = nearest first;  n, root ... parent: the module itself, then its ancestors root first
             return "lineage", {"near": "near", "far": "self-then-far"}.get(o or "")
         return None, None
+    if isinstance(e, (ast.List, ast.Tuple)) and len(e.elts) == 2 and isinstance(e.elts[0], ast.Starred) and _is_name(e.elts[1], n):
+        # [*<parents>, n]  is  <parents> + [n]
+        e = ast.BinOp(left=e.elts[0].value, op=ast.Add(), right=ast.List(elts=[e.elts[1]], ctx=ast.Load()))
     if isinstance(e, ast.BinOp) and isinstance(e.op, ast.Add) and isinstance(e.right, (ast.List, ast.Tuple)) and len(e.right.elts) == 1 and _is_name(e.right.elts[0], n):
         d, o = domain_order(M, e.left, n, depth + 1)
         if d == "parents":
@@ -943,6 +947,11 @@ def domain_order(M: Model, e: ast.expr, n: str, depth: int = 0) -> tuple[str | N
                 return _prefix_range(r, n)
     # a generator helper that yields the module and then its parents
     if isinstance(e, ast.Call):
+        from .c17_chain import chain_call
+
+        ch = chain_call(M, e, n)
+        if ch is not None:
+            return ch  # a generator that cuts the name at its last '.' again and again (rules/c17_chain.py)
         syn = _generator_as_list(M, e)
         if syn is not None:
             return domain_order(M, syn, n, depth + 1)
@@ -1207,21 +1216,30 @@ def labels(C) -> None:
         v = M.resolve(ev.value)
         if ev.n is not None and (_is_name(v, ev.n) or (isinstance(v, ast.Call) and isinstance(v.func, ast.Name) and v.func.id == "str" and len(v.args) == 1 and _is_name(v.args[0], ev.n))):
             ev.kind = "default"
+        elif has_recursive_call(C, v, ev.n):
+            ev.kind = "inductive"  # the label function calls itself (rules/c17_inductive.py)
         elif mentions_alias(M, v) or _uses_selection(M, v):
             ev.kind = "aliased"
+        elif reads_label(C, v, label_names, ev.n):
+            ev.kind = "inductive"  # derived from the label of another module (rules/c17_inductive.py)
         else:
             ev.kind = "other"
     _rule_default(C, events)
     C.all_events = events
     aliased = [ev for ev in events if ev.kind == "aliased"]
+    inductive = [ev for ev in events if ev.kind == "inductive"]
     if not aliased:
-        opaque = [ev for ev in events if ev.kind == "other"] or remaining_helper_calls(C)
+        opaque = [ev for ev in events if ev.kind in ("other", "inductive")] or remaining_helper_calls(C)
         if any(ev.kind == "default" for ev in events) and not odd and not opaque:
             C.bad(r1, "label shape", "no label is ever built from an alias: the 'aliases' option has no effect on the labels", C.label_store)
         else:
             C.unsure(r1, "label shape", "no store of a label built from an alias was found in the flattened draw()", C.label_store)
         return
-    _rule_aliased(C, aliased, events, label_names)
+    self_event, n_selections, shape_open = _rule_aliased(C, aliased, events, label_names)
+    if inductive:
+        rule_inductive(C, inductive, events, label_names)
+    elif self_event is not None and not n_selections and not shape_open and not any(ev.kind == "other" for ev in events) and not remaining_helper_calls(C):
+        C.bad(r1, "ancestor test", f"an alias is only applied to the aliased module itself (`{norm(self_event.node, 70)}`): no store labels a module with the alias of an aliased ancestor, its sub modules keep their full names", self_event.node)
 
 
 def _outside_mapping(C, e: ast.expr) -> str | None:
@@ -1429,7 +1447,8 @@ READ_BACK = ("the current label is read back from the label mapping (`{read}`) a
              "the test and the cut must be taken on the module's name")
 
 
-def _rule_aliased(C, aliased: list[Event], events: list[Event], label_names: set[str]) -> None:
+def _rule_aliased(C, aliased: list[Event], events: list[Event], label_names: set[str]) -> tuple:
+    """-> (the store of the module's own alias if there is one, number of stores that select an aliased ancestor, shape not settled?)"""
     M: Model = C.M
     r1, r2 = "C17.R1", "C17.R2"
     shape_msgs, shape_bad, shape_unsure = [], [], []
@@ -1518,6 +1537,7 @@ def _rule_aliased(C, aliased: list[Event], events: list[Event], label_names: set
             C.unsure(rule, what, uns[0][1], uns[0][2])
         else:
             C.ok(rule, what, items_[0][1], items_[0][2])
+    return self_event, len(parsed), bool(shape_bad or shape_unsure)
 
 
 def _self_in_keys(M: Model, atom_text: str, n: str) -> bool:
@@ -1673,7 +1693,10 @@ def _judge_selection(C, ev: Event, sel: Selection, label_names: set[str], has_se
             out.append(("ok", r2, what_o, "the module's ancestors are walked from the module itself upwards" if disc == "first" else "the nearest aliased ancestor is selected", sel.where))
             out.append(("ok", r2, what_f, "the nearest ancestor that has an alias is used", ev.node))
         elif wrong:
-            out.append(("bad", r2, what_o, f"the module's ancestors are tried root first (`{norm(sel.D, 70)}`) and {'the first' if disc == 'first' else 'the last'} one with an alias is used: a parent's alias wins over a sub module's alias", sel.where))
+            if disc == "last" and order == "near":
+                out.append(("bad", r2, what_f, f"the module's ancestors are walked from the module itself upwards (`{norm(sel.D, 70)}`) but the walk does not stop at the first one with an alias - the last, root-most one is used: a parent's alias wins over a sub module's alias", sel.where))
+            else:
+                out.append(("bad", r2, what_o, f"the module's ancestors are tried root first (`{norm(sel.D, 70)}`) and {'the first' if disc == 'first' else 'the last'} one with an alias is used: a parent's alias wins over a sub module's alias", sel.where))
         else:
             out.append(("unsure", r2, what_o, f"order of the ancestors `{norm(sel.D, 80)}` not recognised", sel.where))
     return out
